@@ -79,6 +79,9 @@ def number_ladder(v, region, names, out_path, wrap):
              and v.callee(bb).path.startswith("serde_json::Number::") and v.callee(bb).name in names]
     tests.sort(key=lambda x: sum(1 for y in tests if v.dominates(y[0], x[0])))
     ladder = []
+    # the order of the tests is only known when each one is reached through the failure of the one before
+    if any(not v.dominates(tests[i][0], tests[i + 1][0]) for i in range(len(tests) - 1)):
+        return [("order-not-read", None, None)]
     for bb, nm in tests:
         # true / Some edge
         d = v.blocks[bb]["term"]["dest"]["l"]
@@ -141,7 +144,10 @@ def run(ctx):
         t_iv["Number"] = lad
         want = [("as_u64", "Integer", True), ("as_i64", "NegativeInteger", True), ("as_f64", "Float", True)]
         if lad != want:
-            fs.append(fnd("C13.ORDER", v, "numbers are classified by %s, expected u64 -> Integer, then i64 -> NegativeInteger, then f64 -> Float (each with the value just obtained)" % lad))
+            if any(x is None for row in lad for x in row[1:]) or not lad or lad[0][0] == "order-not-read":
+                fs.append(fnd("C13.ORDER", v, "the number ladder was not fully read (%s): not recognised (undecided)" % lad))
+            else:
+                fs.append(fnd("C13.ORDER", v, "numbers are classified by %s, expected u64 -> Integer, then i64 -> NegativeInteger, then f64 -> Float (each with the value just obtained)" % lad))
         tables["into_value"] = t_iv
     res.add("C13.TABLE/into_value", 7, fs)
     # ------------------------------------------------------------------ kind
@@ -162,7 +168,32 @@ def run(ctx):
         lad = number_ladder(v, arms.get("Number", set()), ("is_u64", "is_i64", "is_f64"), "ValueKind", None)
         t_k["Number"] = lad
         want = [("is_u64", "Integer", None), ("is_i64", "NegativeInteger", None), ("is_f64", "Float", None)]
-        if [(a, b2) for a, b2, _ in lad] != [(a, b2) for a, b2, _ in want]:
+        # siblings must ask a number the same questions: which of u64 / i64 / f64 accessors each of them consults
+        def consulted(view, region, depth=0):
+            ks = []
+            for x in sorted(region):
+                c = view.callee(x)
+                if c is not None and c.fn is not None and c.path.startswith("serde_json::Number::") and c.name in ("is_u64", "is_i64", "is_f64", "as_u64", "as_i64", "as_f64"):
+                    ks.append(c.name[3:])
+                # closures created here (Option / Result combinator chains) ask their questions too
+                for st in view.blocks[x]["stmts"]:
+                    if st["k"] == "assign" and st["rv"]["k"] == "agg" and st["rv"].get("ak") == "closure" and depth < 4:
+                        cb = _find(crate, lambda b, p_=st["rv"].get("path"): b.path == p_)
+                        if cb is not None:
+                            cv = View(cb)
+                            ks += consulted(cv, cv.reach, depth + 1)
+            return ks
+        k_tests = consulted(v, arms.get("Number", set()))
+        iv_view = View(iv)
+        _b, iv_info = entry_switch(iv_view, "serde_json::Value")
+        iv_tests = consulted(iv_view, arm_regions(iv_view, iv_info).get("Number", set())) if iv_info else []
+        if iv_tests and not k_tests:
+            fs.append(fnd("C13.ORDER", v, "kind() does not look at how the number is held at all, into_value distinguishes %s: the two can disagree on a number" % sorted(set(iv_tests))))
+        elif k_tests and iv_tests and set(k_tests) != set(iv_tests):
+            fs.append(fnd("C13.ORDER", v, "kind() classifies numbers by their %s accessors, into_value by %s: the two can disagree on a number" % (sorted(set(k_tests)), sorted(set(iv_tests)))))
+        elif lad and lad[0][0] == "order-not-read" or any(b2 is None for a, b2, _ in lad) or not lad:
+            fs.append(fnd("C13.ORDER", v, "the order in which kind() classifies numbers was not read: not recognised (undecided)"))
+        elif [(a, b2) for a, b2, _ in lad] != [(a, b2) for a, b2, _ in want]:
             fs.append(fnd("C13.ORDER", v, "kind() classifies numbers by %s; into_value uses u64 -> Integer, i64 -> NegativeInteger, f64 -> Float" % [(a, b2) for a, b2, _ in lad]))
         tables["kind"] = t_k
     res.add("C13.TABLE/kind", 7, fs)
@@ -176,7 +207,7 @@ def run(ctx):
             info = i2
             break
     if not info:
-        fs.append(fnd("C13.TABLE", v, "Value::kind does not dispatch on the variant"))
+        fs.append(fnd("C13.TABLE", v, "Value::kind does not dispatch on the variant: table not recognised (undecided)"))
     else:
         arms = arm_regions(v, info)
         for var in ("Null", "Boolean", "Integer", "NegativeInteger", "Float", "String", "Sequence", "Map"):
@@ -189,7 +220,7 @@ def run(ctx):
     fs = []
     bb, info = entry_switch(v, "Value")
     if not info:
-        fs.append(fnd("C13.TABLE", v, "From<Value> does not dispatch on the variant"))
+        fs.append(fnd("C13.TABLE", v, "From<Value> does not dispatch on the variant: table not recognised (undecided)"))
     else:
         arms = arm_regions(v, info)
         for dv, jv in (("Null", "Null"), ("Boolean", "Bool"), ("String", "String")):
@@ -239,8 +270,7 @@ def run(ctx):
             # another formulation (a loop pushing into a vector, ...): only what is wrong for any formulation is a verdict
             arm = arms.get("Sequence", set())
             names_ = [v.callee(x).name for x in arm if v.callee(x) is not None and v.callee(x).fn is not None]
-            if not any(n in ("rev", "skip", "take", "step_by", "filter", "filter_map", "dedup", "sort", "sort_by", "sort_by_key", "reverse", "truncate", "pop", "swap") for n in names_) \
-                    and any(n == "into_value" for n in names_) and any(n in ("from", "into") for n in names_):
+            if not any(n in ("rev", "skip", "take", "step_by", "filter", "filter_map", "dedup", "sort", "sort_by", "sort_by_key", "reverse", "truncate", "pop", "swap") for n in names_):
                 f_.undecided = True
                 f_.what = "From<Value>: the array arm is not the into_iter().map(into_value).map(from).collect() chain: order / completeness not read (undecided)"
             fs.append(f_)
@@ -270,8 +300,7 @@ def run(ctx):
             f_ = fnd("C13.REC", v, "From<Value> does not rebuild objects entry by entry as (same key, conversion of the same entry's value)")
             arm = arms.get("Map", set())
             names_ = [v.callee(x).name for x in arm if v.callee(x) is not None and v.callee(x).fn is not None]
-            if not any(n in ("rev", "skip", "take", "step_by", "filter", "filter_map", "retain", "remove", "pop", "truncate") for n in names_) \
-                    and any(n == "into_value" for n in names_) and any(n in ("from", "into") for n in names_) and any(n in ("insert", "collect", "extend") for n in names_):
+            if not any(n in ("rev", "skip", "take", "step_by", "filter", "filter_map", "retain", "remove", "pop", "truncate") for n in names_):
                 f_.undecided = True
                 f_.what = "From<Value>: the object arm is not the into_iter().map(|(k, v)| ..).collect() chain: entry correspondence not read (undecided)"
             fs.append(f_)
@@ -282,7 +311,7 @@ def run(ctx):
     fs = []
     bb, info = entry_switch(v, "Value")
     if not info:
-        fs.append(fnd("C13.TABLE", v, "Deserr for serde_json::Value does not dispatch on the variant"))
+        fs.append(fnd("C13.TABLE", v, "Deserr for serde_json::Value does not dispatch on the variant: table not recognised (undecided)"))
     else:
         arms = arm_regions(v, info)
 
